@@ -12,8 +12,10 @@ import (
 	"regexp"
 	"runtime"
 	"sort"
+	"strconv"
 	"strings"
 	"sync"
+	"sync/atomic"
 	"syscall"
 	"time"
 
@@ -59,6 +61,129 @@ type raceDesc struct {
 	// valid requests, each result read back by the reference decoder at once (windows of
 	// a few instructions between two non-atomic steps of a "thread-safe" cache)
 	Hammer string `json:"hammer,omitempty"`
+	// Twin: every goroutine's very first call is the SAME request (same size class,
+	// level, flags), so that lazily built per-size / per-level / per-option state is
+	// first-used by all of them at once; a short hammer loop on the family follows, so
+	// that state left corrupted by the overlap shows in later results
+	Twin    string `json:"twin,omitempty"`
+	HammerN int    `json:"hammer_n,omitempty"`
+}
+
+var twinClasses = []string{"datamatrix:10", "datamatrix:32", "datamatrix:88", "datamatrix:144", "pdf417:0", "pdf417:1", "pdf417:2", "pdf417:3", "pdf417:4", "pdf417:5", "pdf417:6", "pdf417:7", "pdf417:8",
+	"datamatrix:rounds", "pdf417:rounds", "qr:rounds", "aztec:rounds", "code93:rounds", "code39:rounds",
+	"aztec:compact", "aztec:8", "aztec:10", "aztec:12", "aztec:10+12", "aztec:10big", "aztec:12big", "qr:5", "qr:12", "qr:30", "qr:alnum", "code93:cs", "code93:full", "code39:cs", "code39:full", "code128", "code128nocs", "ean:7", "ean:12", "ean:13", "codabar", "2of5:1", "2of5:0"}
+
+// twinFirst returns the first requests of goroutine g in a twin process: identical for
+// all goroutines (built from the descriptor's rng), except in mixed classes where even
+// and odd goroutines take the two sides.
+func twinFirst(class string, seed int64, g int) []Req {
+	r := rngFor(seed, "twin")
+	fam, arg := class, ""
+	if i := strings.IndexByte(class, ':'); i >= 0 {
+		fam, arg = class[:i], class[i+1:]
+	}
+	n, _ := strconv.Atoi(arg)
+	if arg == "rounds" {
+		// several rounds in one process, each behind a barrier: every round is the
+		// simultaneous first use of another size / level / version / option
+		var out []Req
+		switch fam {
+		case "datamatrix":
+			caps := refdec.DMCapacities()
+			r.Shuffle(len(caps), func(i, j int) { caps[i], caps[j] = caps[j], caps[i] })
+			for _, c := range caps {
+				out = append(out, Req{Fam: fam, S: randBytes(r, c[1], upperAB), Scheme: -1})
+			}
+		case "pdf417":
+			for _, l := range r.Perm(9) {
+				out = append(out, Req{Fam: fam, S: pdfTextWalk(r, 30), I: []int64{int64(l)}, Scheme: -1})
+			}
+		case "qr":
+			vs := []int{1, 5, 9, 10, 12, 20, 26, 27, 30, 35, 40, 14, 7, 33}
+			r.Shuffle(len(vs), func(i, j int) { vs[i], vs[j] = vs[j], vs[i] })
+			for _, v := range vs {
+				lvl := r.Intn(4)
+				out = append(out, Req{Fam: fam, S: randBytes(r, refdec.QRCapacity(4, v, lvl), printAB), I: []int64{int64(lvl), 3}, Scheme: -1})
+			}
+		case "aztec":
+			ls := []int64{-4, -3, -2, -1, 1, 2, 3, 5, 8, 9, 12, 15, 22, 23, 27, 32}
+			r.Shuffle(len(ls), func(i, j int) { ls[i], ls[j] = ls[j], ls[i] })
+			for _, l := range ls {
+				out = append(out, Req{Fam: fam, S: randBytes(r, 3, upperAB), I: []int64{23, l}, Scheme: -1})
+			}
+		default: // code39 / code93: the option mixes
+			for _, o := range [][2]int64{{1, 0}, {0, 1}, {1, 1}, {0, 0}} {
+				ab := []byte(refC39)
+				if o[1] == 1 {
+					ab = asciiAB
+				}
+				out = append(out, Req{Fam: fam, S: randBytes(r, 18, ab), I: []int64{o[0], o[1]}, Scheme: -1})
+			}
+			if g%2 == 1 {
+				out[0], out[2] = out[2], out[0]
+			}
+		}
+		return out
+	}
+	switch fam {
+	case "datamatrix":
+		cw := map[int]int{10: 2, 32: 50, 88: 500, 144: 1400}[n]
+		return []Req{{Fam: fam, S: randBytes(r, cw, upperAB), Scheme: -1}}
+	case "pdf417":
+		return []Req{{Fam: fam, S: pdfTextWalk(r, 40), I: []int64{int64(n)}, Scheme: -1}, {Fam: fam, S: randBytes(r, 20, digitsAB), I: []int64{int64(n)}, Scheme: -1}}
+	case "aztec":
+		// tiny payloads with explicit layer requests: both word sizes reach the
+		// Reed-Solomon stage at the same moment
+		ten := Req{Fam: fam, S: randBytes(r, 3, upperAB), I: []int64{23, int64(9 + r.Intn(14))}, Scheme: -1}
+		twelve := Req{Fam: fam, S: randBytes(r, 3, upperAB), I: []int64{23, int64(23 + r.Intn(10))}, Scheme: -1}
+		if arg == "10big" {
+			return []Req{{Fam: fam, S: randBytes(r, 500, highAB), I: []int64{23, 0}, Scheme: -1}}
+		}
+		if arg == "12big" {
+			return []Req{{Fam: fam, S: randBytes(r, 1200, highAB), I: []int64{23, 0}, Scheme: -1}}
+		}
+		switch arg {
+		case "compact":
+			return []Req{{Fam: fam, S: randBytes(r, 8, upperAB), I: []int64{33, 0}, Scheme: -1}}
+		case "8":
+			return []Req{{Fam: fam, S: randBytes(r, 60, printAB), I: []int64{33, 0}, Scheme: -1}}
+		case "10":
+			return []Req{ten}
+		case "12":
+			return []Req{twelve}
+		default:
+			if g%2 == 0 {
+				return []Req{ten, twelve}
+			}
+			return []Req{twelve, ten}
+		}
+	case "qr":
+		switch arg {
+		case "alnum":
+			return []Req{{Fam: fam, S: randBytes(r, 300, qrAlnumAB), I: []int64{1, 2}, Scheme: -1}}
+		default:
+			bytesFor := map[int]int{5: 80, 12: 300, 30: 1300}[n]
+			return []Req{{Fam: fam, S: randBytes(r, bytesFor, printAB), I: []int64{1, 3}, Scheme: -1}}
+		}
+	case "code93", "code39":
+		if arg == "full" {
+			return []Req{{Fam: fam, S: randBytes(r, 20, asciiAB), I: []int64{1, 1}, Scheme: -1}}
+		}
+		return []Req{{Fam: fam, S: randBytes(r, 20, []byte(refC39)), I: []int64{1, 0}, Scheme: -1}}
+	case "code128", "code128nocs":
+		return []Req{{Fam: fam, S: randBytes(r, 24, printAB), Scheme: -1}}
+	case "ean":
+		q := Req{Fam: fam, S: randBytes(r, min(n, 12), digitsAB), Scheme: -1}
+		if n == 13 {
+			q.S = []byte(eanExpect(string(q.S)))
+		}
+		return []Req{q}
+	case "codabar":
+		return []Req{{Fam: fam, S: []byte("A" + string(randBytes(r, 12, digitsAB)) + "B"), Scheme: -1}}
+	case "2of5":
+		return []Req{{Fam: fam, S: randBytes(r, 12, digitsAB), I: []int64{int64(n)}, Scheme: -1}}
+	}
+	return nil
 }
 
 // rejectedByFam: requests that every family must refuse, by family (filled by
@@ -211,6 +336,10 @@ func raceRequests(d *raceDesc) [][]Req {
 	for g := range lists {
 		gr := rand.New(rand.NewSource(d.Seed*1000003 + int64(g)))
 		var l []Req
+		if d.Twin != "" {
+			lists[g] = twinFirst(d.Twin, d.Seed, g)
+			continue
+		}
 		l = append(l, focusReqs(d.Focus, gr)...)
 		if d.Micro {
 			l = append(l, rejected[gr.Intn(len(rejected))], rejected[gr.Intn(len(rejected))])
@@ -415,6 +544,7 @@ func auxRaceWork(args []string) int {
 	}
 	logs := make([][]rec, d.Goroutines)
 	probs := make([][]string, d.Goroutines)
+	rounds := newCyclicBarrier(d.Goroutines)
 	hammered := make([]int, d.Goroutines)
 	start := make(chan struct{})
 	var wg sync.WaitGroup
@@ -427,6 +557,9 @@ func auxRaceWork(args []string) int {
 			var heldErr error
 			var heldText string
 			<-start
+			if d.Twin != "" {
+				rounds.await() // tight start: everybody leaves together
+			}
 			for k, ub := range untouched {
 				if ub == nil {
 					continue
@@ -447,6 +580,9 @@ func auxRaceWork(args []string) int {
 				my = append(my, rc)
 			}
 			for i, q := range lists[g] {
+				if d.Twin != "" && i > 0 {
+					rounds.await() // next simultaneous first use
+				}
 				var rc rec
 				rc.key = q.Key()
 				rc.t0 = time.Now()
@@ -561,8 +697,19 @@ func auxRaceWork(args []string) int {
 				if d.Hammer == "qr" || d.Hammer == "datamatrix" || d.Hammer == "pdf417" || d.Hammer == "aztec" {
 					n = 150
 				}
+				if d.HammerN > 0 {
+					n = d.HammerN
+				}
 				for it := 0; it < n && len(probs[g]) < 5; it++ {
 					q := randomValidReq(gr, d.Hammer, -1)
+					if d.Twin != "" && it%2 == 0 {
+						// stay in the twin's class: same parameters, fresh content of the same length
+						q = twinFirst(d.Twin, d.Seed, g+it/2)[0]
+						q.S = append([]byte{}, q.S...)
+						if d.Hammer != "ean" && len(q.S) > 2 {
+							q.S[len(q.S)/2], q.S[len(q.S)/2+1] = q.S[len(q.S)/2+1], q.S[len(q.S)/2]
+						}
+					}
 					if (d.Hammer == "code39" || d.Hammer == "code93") && len(q.S) == 0 {
 						continue
 					}
@@ -763,6 +910,32 @@ func (p c16) Run(par *fw.Parent) *fw.Result {
 			descs = append(descs, raceDesc{ID: fmt.Sprintf("hammer-%s-%d", fam, k), Seed: r.Int63(), Procs: []int{8, 16, 4, 2}[(i+k)%4], Goroutines: []int{8, 16, 4}[(i+2*k)%3], Micro: true, Focus: "hammer", Hammer: fam})
 		}
 	}
+	// twin cold starts: the same request class first-used by all goroutines at once
+	ntwin := 3
+	if par.Tier == "thorough" {
+		ntwin = 24
+	}
+	for i, cl := range twinClasses {
+		fam := cl
+		if j := strings.IndexByte(cl, ':'); j >= 0 {
+			fam = cl[:j]
+		}
+		reps := ntwin
+		twoD := fam == "qr" || fam == "datamatrix" || fam == "aztec" || fam == "pdf417"
+		switch {
+		case !twoD:
+			reps = 8 * ntwin // a 1D cold start costs some 60 ms and its windows are a few microseconds wide
+		case strings.HasSuffix(cl, ":rounds") || strings.HasSuffix(cl, "big") || cl == "datamatrix:144" || cl == "qr:30":
+			reps = (2*ntwin + 2) / 3
+		}
+		hn := 24
+		if twoD {
+			hn = 6
+		}
+		for k := 0; k < reps; k++ {
+			descs = append(descs, raceDesc{ID: fmt.Sprintf("twin-%s-%d", strings.NewReplacer(":", "_", "+", "and").Replace(cl), k), Seed: r.Int63(), Procs: 16, Goroutines: []int{8, 16, 4, 16, 3}[(i+k)%5], Micro: true, Focus: "twin", Twin: cl, Hammer: fam, HammerN: hn})
+		}
+	}
 	// free-running streams of large Aztec symbols (calls drift out of phase)
 	nbig := 2
 	if par.Tier == "thorough" {
@@ -956,8 +1129,11 @@ func (p c16) Run(par *fw.Parent) *fw.Result {
 				viol("race:"+raceKey(sk), fmt.Sprintf("race detector report (%d reports in process %s)", n, d.ID), fmt.Sprintf("descriptor %+v", d), blk)
 			}
 			merged.Extra["hammer_calls_decoded_inline"] += int64(o.Hammered)
-			if d.Hammer != "" {
+			if d.Hammer != "" && d.Twin == "" {
 				cover("hammer_family", d.Hammer)
+			}
+			if d.Twin != "" {
+				cover("twin_cold_start_class", d.Twin)
 			}
 			merged.Extra["max_in_flight_calls"] = max64(merged.Extra["max_in_flight_calls"], int64(o.MaxInFlight))
 			merged.Extra["overlapping_call_pairs"] += o.Overlap
@@ -1097,4 +1273,51 @@ func replayWhole(par *fw.Parent, merged *fw.Result, v *fw.Violation) int {
 		return 0
 	}
 	return 1
+}
+
+// cyclicBarrier lets the goroutines of a twin process start every round together.
+// Waiters spin for a short while on an atomic generation counter, so that all of them
+// leave within a fraction of a microsecond of the last arrival (lazy initialisers have
+// windows of a few microseconds), and fall back to a condition variable, so that a
+// process in which one goroutine never arrives goes idle and is diagnosed as blocked.
+type cyclicBarrier struct {
+	mu       sync.Mutex
+	cond     *sync.Cond
+	n, count int
+	gen      int
+	genA     int32
+}
+
+func newCyclicBarrier(n int) *cyclicBarrier {
+	b := &cyclicBarrier{n: n}
+	b.cond = sync.NewCond(&b.mu)
+	return b
+}
+
+func (b *cyclicBarrier) await() {
+	b.mu.Lock()
+	gen := b.gen
+	b.count++
+	if b.count == b.n {
+		b.gen++
+		b.count = 0
+		atomic.StoreInt32(&b.genA, int32(b.gen))
+		b.cond.Broadcast()
+		b.mu.Unlock()
+		return
+	}
+	b.mu.Unlock()
+	for i := 0; i < 400000; i++ {
+		if atomic.LoadInt32(&b.genA) != int32(gen) {
+			return
+		}
+		if i%256 == 255 {
+			runtime.Gosched()
+		}
+	}
+	b.mu.Lock()
+	for gen == b.gen {
+		b.cond.Wait()
+	}
+	b.mu.Unlock()
 }
